@@ -89,3 +89,25 @@ Definition model_det (k : nat) (su : SourceUnit) : option (list (N * N)) :=
   | Some f => match f su with Ok ls => Some (locs_pairs ls) | Panic _ => None end
   | None => Some []
   end.
+
+(* ---- C02, detector level, specification evaluated on the implementation's output:
+   the reported line set = { 1 + #LF before start | (start, end) reported } *)
+Fixpoint count_lf_before (n : nat) (s : string) (acc : Z) : Z :=
+  match n, s with
+  | S n', String c r => count_lf_before n' r (if (N_of_ascii c =? 10)%N then (acc + 1)%Z else acc)
+  | _, _ => acc
+  end.
+Definition spec_line (src : string) (start : N) : Z := count_lf_before (N.to_nat start) src 1%Z.
+Definition incl_z (a b : list Z) : bool := forallb (fun x => existsb (Z.eqb x) b) a.
+Definition spec_lines_ok (src : string) (locs : option (list (N * N))) (lines : option (list Z)) : bool :=
+  match locs, lines with
+  | Some ls, Some zs => let want := map (fun p => spec_line src (fst p)) ls in incl_z want zs && incl_z zs want
+  | _, _ => true
+  end.
+Fixpoint spec_lines_from (k : N) (src : string) (locs : list (option (list (N * N)))) (lines : list (option (list Z))) : list N :=
+  match locs, lines with
+  | l :: locs', z :: lines' => (if spec_lines_ok src l z then [] else [k]) ++ spec_lines_from (k + 1) src locs' lines'
+  | _, _ => []
+  end.
+Definition spec_lines (src : string) (locs : list (option (list (N * N)))) (lines : list (option (list Z))) : list N :=
+  spec_lines_from 0 src locs lines.
